@@ -10,6 +10,8 @@
 #include "dataset.hpp"
 #include "vm_interpreted.hpp"
 #include "vm_compiled.hpp"
+#include "vm_interpreted_light.hpp"
+#include "vm_compiled_light.hpp"
 #include "verif_hooks.h"
 #include "jit_compiler_x86.hpp"
 #include "superscalar.hpp"
@@ -99,6 +101,20 @@ template<bool soft> struct CVm : CompiledVm<AlignedAllocator<CacheLineSize>, sof
 	void verif_execute() { this->compiler.generateProgram(this->program, this->config); this->mem.memory = this->datasetPtr->memory + this->datasetOffset; B::execute(); }
 };
 
+// light-mode engines: dataset items are computed from a real cache (interpreted SuperscalarHash / compiled SuperscalarHash)
+struct ILVm : InterpretedLightVm<AlignedAllocator<CacheLineSize>, true> {
+	using B = InterpretedLightVm<AlignedAllocator<CacheLineSize>, true>;
+	explicit ILVm(randomx_flags f) : B(f) {}
+	void verif_execute() { B::execute(); }
+};
+#ifndef RANDOMX_VERIF_NOJIT
+template<bool soft> struct CLVm : CompiledLightVm<AlignedAllocator<CacheLineSize>, soft, false> {
+	using B = CompiledLightVm<AlignedAllocator<CacheLineSize>, soft, false>;
+	explicit CLVm(randomx_flags f) : B(f) {}
+	void verif_execute() { this->compiler.generateProgramLight(this->program, this->config, this->datasetOffset); B::execute(); }
+};
+#endif
+
 static void nop_fill(Prog& P, Rng& rng) { for (int i = 0; i < 384; ++i) { uint8_t* w = P.buf + 128 + 8 * i; w[0] = (uint8_t)(76 + rng.below(8)); w[1] = (uint8_t)rng.next(); w[2] = (uint8_t)rng.next(); w[3] = (uint8_t)rng.next(); uint32_t z = rng.below(2) ? 0u : (1u << rng.below(32)); memcpy(w + 4, &z, 4); } }
 
 static std::string g_targets;
@@ -136,7 +152,7 @@ static void emit_run(const char* engine, bool soft, bool v2, unsigned n, uint32_
 		for (int i = 0; i < size; ++i) { if (i) ws += ","; ws += json_bytes(P.buf + 128 + 8 * i, 8); }
 		l.raw("words", ws + "]").raw("targets", g_targets).raw("jtargets", g_jtargets);
 	}
-	l.boolean("first", !strcmp(engine, "interp") && soft);
+	l.boolean("first", (!strcmp(engine, "interp") || !strcmp(engine, "interp-light")) && soft);
 	l.limbs("reg", R.reg, 256).num("fprc", R.fprc).raw("writes", R.writes).num("nwrites", R.nwrites).w64("whash", R.whash).num("count", (long long)R.count).boolean("oob", R.oob);
 	l.emit(out);
 }
@@ -329,6 +345,33 @@ int main(int argc, char** argv) {
 				}
 			}
 			all_engines(P, (pi & 1) != 0, 1 + (pi % 2), rng.below(4), true, "oracle");
+		}
+	}
+	else if (part == "light") { // light mode: interpreter vs JIT over a real cache, configuration blocks with directed dataset offsets (in items: 0, 1, 127, 128, 129, 255, 256, ..., maximum)
+		randomx_cache* cache = randomx_alloc_cache(RANDOMX_FLAG_JIT);
+		std::vector<uint8_t> key = rng.bytes(1 + rng.below(60));
+		randomx_init_cache(cache, key.data(), key.size());
+		ILVm* il = new ILVm(RANDOMX_FLAG_DEFAULT); il->setCache(cache); il->allocate();
+#ifndef RANDOMX_VERIF_NOJIT
+		auto* cls = new CLVm<true>(RANDOMX_FLAG_JIT); cls->setCache(cache); cls->allocate();
+		CLVm<false>* clh = haveHard ? new CLVm<false>((randomx_flags)(RANDOMX_FLAG_JIT | RANDOMX_FLAG_HARD_AES)) : nullptr; if (clh) { clh->setCache(cache); clh->allocate(); }
+#endif
+		static const uint32_t offs[] = { 0, 1, 2, 63, 64, 126, 127, 128, 129, 130, 254, 255, 256, 257, 511, 512, 32767, 32768, 65535, 65536, 524286, 524287 };
+		int np = thorough ? 88 : 44;
+		for (int i = 0; i < np; ++i) {
+			random_program(rng, P, 384, i % 4);
+			uint64_t off = offs[i % (sizeof offs / sizeof offs[0])] | ((uint64_t)rng.next() << 19);       // only the low 19 bits count
+			memcpy(P.buf + 8 * 13, &off, 8);
+			bool v2 = (i & 1) != 0; unsigned n = 16 + rng.below(48); uint32_t fprc0 = rng.below(4);
+			alarm(120);
+			g_patS = rng.next(); g_patD = 0;
+			Result a = run_one<ILVm, false>(il, P, v2, n, fprc0, sp);
+			g_targets = "[]"; g_jtargets = "[]";
+			emit_run("interp-light", true, v2, n, fprc0, P, a, false, "diff");
+#ifndef RANDOMX_VERIF_NOJIT
+			{ Result c = run_one<CLVm<true>, true>(cls, P, v2, n, fprc0, sp); emit_run("jit-light", true, v2, n, fprc0, P, c, false, "diff"); }
+			if (clh) { Result d = run_one<CLVm<false>, true>(clh, P, v2, n, fprc0, sp); emit_run("jit-light", false, v2, n, fprc0, P, d, false, "diff"); }
+#endif
 		}
 	}
 	else if (part == "codelen") { // length of the x86 code of EVERY instruction word class (opcode x dst x src x mod bytes, immediate classes), and the fixed part per flag set
